@@ -554,6 +554,79 @@ fn window_only_long(run: &Run, total: &mut Ctx) {
     }));
 }
 
+/// look-ahead freedom of the user-function drivers on every input back end (option views included): what the
+/// callback is handed at positions < k is the same for x and for its prefix x[..k]
+struct DriverVisitor {
+    w: usize,
+    out: Vec<(String, Outcome<Vec<Cell>>)>,
+}
+fn slice_score<T: Elem>(items: &[T]) -> f64 {
+    let mut s = 0.5;
+    for t in items {
+        s = s * 3.0 + t.dec().num().unwrap_or(-7.0);
+    }
+    s + items.len() as f64 * 1000.0
+}
+impl<T: Elem> mc_adapt::backends::BackendVisitor<T> for DriverVisitor {
+    fn visit<V: tevec::prelude::Vec1View<T> + mc_adapt::backends::SliceRead<T>>(&mut self, name: &str, v: &V) {
+        use tevec::prelude::*;
+        let w = self.w;
+        self.out.push((format!("rolling_custom on {name}"), catch(|| v.rolling_custom::<Vec<f64>, f64, _>(w, |s: V::SliceOutput<'_>| slice_score(&V::read_slice(&s)), None).expect("no container").cells())));
+        self.out.push((format!("rolling_custom_iter on {name}"), catch(|| v.rolling_custom_iter(w, |s: V::SliceOutput<'_>| slice_score(&V::read_slice(&s))).map(Cell::f).collect())));
+        self.out.push((
+            format!("rolling_apply on {name}"),
+            catch(|| v.rolling_apply::<Vec<f64>, f64, _>(w, |rm: Option<T>, add: T| slice_score(&[add]) + rm.map_or(-0.25, |r| 10.0 * slice_score(&[r])), None).expect("no container").cells()),
+        ));
+    }
+}
+fn driver_prefix(run: &Run, total: &mut Ctx) {
+    use mc_adapt::backends::{for_backends, for_backends_opt};
+    let name = "driver-prefix";
+    let alpha: Vec<X> = vec![None, Some(0.0), Some(1.0)];
+    let words = all_words_upto(alpha.len(), run.pick(4, 5));
+    total.merge(par_items(&words, run.threads, |word, ctx| {
+        let x = decode(word, &alpha);
+        let len = x.len();
+        if len < 2 {
+            return;
+        }
+        ctx.states += 1;
+        ctx.fam(name).states += 1;
+        ctx.nontrivial(name, hash_bytes(word));
+        for w in 1..=len + 1 {
+            let mut full = DriverVisitor { w, out: vec![] };
+            for_backends::<f64, _>(&x, 0, &mut full);
+            for_backends_opt(&x, 0, &mut full);
+            for k in 1..len {
+                let mut pre = DriverVisitor { w, out: vec![] };
+                for_backends::<f64, _>(&x[..k], 0, &mut pre);
+                for_backends_opt(&x[..k], 0, &mut pre);
+                for ((bn, fo), (bn2, po)) in full.out.iter().zip(pre.out.iter()) {
+                    if bn != bn2 {
+                        continue; // chunkings depend on the length: different configurations
+                    }
+                    ctx.transitions += 1;
+                    let (Outcome::Ok(fc), Outcome::Ok(pc)) = (fo, po) else { continue };
+                    ctx.eval(name, hash_cells(pc));
+                    // the element reported as leaving at the last position of a series shorter than the window is
+                    // the carve-out of C02: not compared
+                    let upto = if bn.starts_with("rolling_apply on") && w > k { k - 1 } else { k };
+                    if pc.len() != k || fc.len() != len || !cells_eq(&fc[..upto], &pc[..upto], exact_eq) {
+                        ctx.violation(Violation {
+                            entry: format!("prefix:{}", bn.split(" on ").next().unwrap_or(bn)),
+                            finding: None,
+                            size: len * 100 + w,
+                            case: json!({"family": name, "word": word, "series": json_word(&x), "w": w, "cut": k, "backend": bn}),
+                            expected: format!("f(series)[..{k}] == f(series[..{k}]) = {}", show_cells(pc)),
+                            got: show_cells(fc),
+                        });
+                    }
+                }
+            }
+        }
+    }));
+}
+
 /// window-only dependence on every input back end (seed round 6: the default driver bodies of VecDeque / option
 /// views / Polars may compute the window start differently from the Vec fast paths): the last output on
 /// A ++ W against the last output on W alone, per back end, single- and two-series statistics
@@ -703,6 +776,7 @@ fn main() {
             "prefix-long" => prefix_long(&run, &mut ctx),
             "window-only-long" => window_only_long(&run, &mut ctx),
             "window-only-backends" => window_only_backends(&run, &mut ctx),
+            "driver-prefix" => driver_prefix(&run, &mut ctx),
             _ => window_only(&run, &mut ctx),
         }
         std::process::exit(finish_replay(&run, &stored, ctx));
@@ -716,6 +790,7 @@ fn main() {
     prefix_long(&run, &mut total);
     window_only_long(&run, &mut total);
     window_only_backends(&run, &mut total);
+    driver_prefix(&run, &mut total);
     let meta = Meta {
         rule: "(a) prefix law on every edge parent->child of the history trees (single series, null-free plain family, pairs, positive-lag shift/vshift/vdiff/vpct_change with n in 0..=len+2 and every fill): f(child)[..len-1] == f(parent) bit for bit, for every window and min_periods; by induction every cut point. (b) window-only dependence: for every window word W (|W|<=w_max) and every pre-history A (|A|<=a_max, finite values and nulls), also for the two-series family over pair words: last output of f(A++W) equals that of f(W) (exact for min/max/arg/rank, 1e-9 otherwise). Non-trivial = word with a non-null element; each edge compares the parent's memoised outputs with the child's. Also the window-only relation on every input back end (window-only-backends) and the integer orders 1 and 2 of the fractional difference (DESIGN 5.15, 5.16).".into(),
         bounds: json!({
